@@ -140,32 +140,67 @@ def check_bulk(chk, htu, cfg):
 
 
 def check_translator_readers(chk):
-    for cfg, extra, want in (('le', [], 0), ('be', ['-DWASM_ENDIAN=WASM_BIG_ENDIAN'], 1)):
+    """R19.2: the float-immediate readers return the little-endian value on both host byte orders.  The reader is partially
+    evaluated with union type punning modelled in the host's byte order.  Its data path uses only |, &, shifts, casts, byte
+    copies and byte reversals - all of which distribute over bitwise OR - so agreement on 0, on every single-bit value and on
+    all-ones decides every value; a body with other arithmetic is additionally reported as not decided."""
+    from .. import pe
+    from ..pe import Ptr
+
+    def memcpy(interp, args, node):
+        d, s_, n = args
+        if not isinstance(n, int):
+            raise pe.PEError('memcpy of symbolic length')
+        for i in range(n):
+            interp.store(d.c, d.k + i, interp.load(s_.c, s_.k + i))
+        return d
+
+    def bswap(w):
+        def f(interp, args, node):
+            x = args[0] & ((1 << w) - 1)
+            return int.from_bytes(x.to_bytes(w // 8, 'little'), 'big')
+        return f
+    for cfg, extra, endian in (('le', [], 'little'), ('be', ['-DWASM_ENDIAN=WASM_BIG_ENDIAN'], 'big')):
         tu = astdb.dump_ast(astdb.src('w2c2/instruction.c'), extra=extra, config=cfg)
         chk.unit(tu)
         for fn, W in (('bufferReadF32', 32), ('bufferReadF64', 64)):
             f = tu.fn(fn)
-            calls = [astdb.callee_name(x) for x in walk(f) if x.get('kind') == 'CallExpr'
-                     and (astdb.callee_name(x) or '').startswith('__builtin_bswap')]
-            ok = len(calls) == want and all(c == '__builtin_bswap%d' % W for c in calls)
-            chk.expect(ok, 'R19.2', '%s@%s' % (fn, cfg),
-                       '%s applies %r in the %s-endian configuration; expected %d reversal(s) of %d bits'
-                       % (fn, calls, 'big' if cfg == 'be' else 'little', want, W), '%s@%s' % (fn, cfg), astdb.loc_str(f))
-            if want:
-                # the reversal must sit between the byte copy and the store to *result
-                order = []
-                for x in walk(astdb.fn_body(f)):
-                    if x.get('kind') == 'CallExpr':
-                        n = astdb.callee_name(x) or ''
-                        if n in ('memcpy', '__builtin_memcpy'):
-                            order.append('copy')
-                        elif n.startswith('__builtin_bswap'):
-                            order.append('swap')
-                    elif x.get('kind') == 'BinaryOperator' and x.get('opcode') == '=' and \
-                            astdb.strip(kids(x)[0]).get('kind') == 'UnaryOperator' and astdb.strip(kids(x)[0]).get('opcode') == '*':
-                        order.append('result')
-                chk.expect(order == ['copy', 'swap', 'result'], 'R19.2', '%s@%s:order' % (fn, cfg),
-                           '%s: order of byte copy / reversal / result store is %r' % (fn, order), '%s@%s' % (fn, cfg))
+            chk.fn(fn)
+            site = '%s@%s' % (fn, cfg)
+            arith = sorted({x.get('opcode') for x in walk(astdb.fn_body(f)) if x.get('kind') in ('BinaryOperator', 'CompoundAssignOperator')
+                            and x.get('opcode') in ('+', '-', '*', '/', '%', '+=', '-=', '*=', '^', '^=')})
+            values = [0, (1 << W) - 1] + [1 << b for b in range(W)] + [0x0123456789ABCDEF & ((1 << W) - 1), 0x8040201008040201 & ((1 << W) - 1)]
+            bad = []
+            for v in values:
+                data = list(v.to_bytes(W // 8, 'little')) + [0xEE]
+                it = pe.Interp([tu], {'memcpy': memcpy, '__builtin_memcpy': memcpy, '__builtin_bswap64': bswap(64), '__builtin_bswap32': bswap(32),
+                                      '__builtin_bswap16': bswap(16)})
+                it.union_endian = endian
+
+                def setup(data=data):
+                    buf = {'v': {'data': Ptr(data, 0), 'length': W // 8}}
+                    res = {'v': 0}
+                    return (fn, [Ptr(buf, 'v'), Ptr(res, 'v')], {'res': res, 'buf': buf})
+                try:
+                    paths = it.explore(setup)
+                except pe.PEError as e:
+                    raise AnalysisBroken('%s [%s]: %s' % (fn, cfg, e))
+                if len(paths) != 1 or paths[0].ret != 1:
+                    bad.append('value 0x%X: %d paths / return %r' % (v, len(paths), paths[0].ret if paths else None))
+                    continue
+                got = paths[0].state['res']['v']
+                b = paths[0].state['buf']['v']
+                if not isinstance(got, int) or (got & ((1 << W) - 1)) != v:
+                    bad.append('immediate bytes of 0x%0*X are read as %s' % (W // 4, v, ('0x%0*X' % (W // 4, got & ((1 << W) - 1))) if isinstance(got, int) else repr(got)))
+                elif b['length'] != 0 or not (isinstance(b['data'], Ptr) and b['data'].k == W // 8):
+                    bad.append('value 0x%X: the reader does not consume exactly %d bytes' % (v, W // 8))
+            chk.expect(not bad, 'R19.2', site,
+                       '%s on a %s-endian host does not return the little-endian immediate for %d of %d basis values (e.g. %s): constants in the '
+                       'generated C differ from the module' % (fn, endian, len(bad), len(values), '; '.join(bad[:3])), site, astdb.loc_str(f),
+                       detail_ok='%d basis values (0, all ones, every single bit) map to themselves' % len(values))
+            chk.expect(not arith, 'R19.2', site + ':or-distributive',
+                       '%s uses %r on its data path: agreement on single-bit values no longer decides all values (not decided, reported so that it is not '
+                       'mistaken for a proof)' % (fn, arith), site + ':arith')
 
 
 BYTE_POINTEES = ('char', 'unsigned char', 'signed char', 'void', 'const char', 'const unsigned char', 'const void',
